@@ -20,6 +20,7 @@ def run(model, rep, tier):
     r4_recorded_once(ctx, rep)
     r5_own_class_and_name(ctx, rep)
     r6_writer_total_on_strings(ctx, rep)
+    r7_one_file_per_suite(ctx, rep)
     rep.units['cfg'] = ctx.cfg_stats
 
 
@@ -669,3 +670,147 @@ def r6_writer_total_on_strings(ctx, rep, R='C17.R6'):
                       where=ctx.where(f, sub))
     rep.floor(R, n, 2, 'constant indexes into split results')
     rep.units.setdefault('scope', {})[R] = sorted(seen)
+
+
+# ---------------------------------------------------------------------------------------------
+# R7 -- one report file per suite
+
+LOSSY_METHODS = ('sub', 'subn', 'replace', 'lower', 'upper', 'casefold', 'strip', 'lstrip', 'rstrip',
+                 'translate', 'title', 'capitalize', 'split', 'rsplit', 'partition', 'rpartition',
+                 'removeprefix', 'removesuffix', 'expandtabs', 'swapcase')
+
+
+def r7_one_file_per_suite(ctx, rep, R='C17.R7'):
+    rep.rule(R, 'every suite gets a report file of its own: the file name is an injective function of '
+             'the suite name (the key of the suite table) -- the name itself with constant text '
+             'around it, joined to the reports directory.  Anything that maps different names to one '
+             'string (character substitution, case folding, stripping, slicing, lossy encoding) lets '
+             'two suites share a file: the later report overwrites the earlier and the tests of that '
+             'suite appear in no report')
+    from .common import reaching_defs
+    fi = ctx.model.func(FN)
+    g = ctx.cfg(fi)
+    loops = [n for n in g.nodes if n.kind == 'for' and '_testSuites' in norm(n.stmt.iter)]
+    if len(loops) != 1 or not isinstance(loops[0].stmt.target, ast.Tuple):
+        rep.assume('%s not applied: no single loop over the (name, suite) pairs of the suite table' % R)
+        return
+    key = loops[0].stmt.target.elts[0]
+    if not isinstance(key, ast.Name):
+        rep.assume('%s not applied: the key of the suite table is not bound to a plain name' % R)
+        return
+    K = key.id
+    opens = []
+    for n in g.nodes:
+        if n.ast is None:
+            continue
+        for c in ast.walk(n.ast):
+            if isinstance(c, ast.Call) and ((isinstance(c.func, ast.Name) and c.func.id == 'open') or
+                                            (isinstance(c.func, ast.Attribute) and
+                                             c.func.attr in ('open', 'write_text', 'write_bytes'))):
+                tgt = c.args[0] if isinstance(c.func, ast.Name) and c.args else (
+                    c.func.value if isinstance(c.func, ast.Attribute) else None)
+                if tgt is not None and any(x is n.ast or True for x in [0]) and \
+                        any(x is c for x in ast.walk(loops[0].stmt)):
+                    opens.append((n, c, tgt))
+    rep.floor(R, len(opens), 1, 'places where a report file is opened')
+
+    def judge(e, nid, depth=0):
+        """'inj' (injective in K), 'const' (does not depend on K), ('lossy', why), or None"""
+        if isinstance(e, ast.Constant):
+            return 'const'
+        if isinstance(e, ast.Name):
+            if e.id == K:
+                return 'inj'
+            if depth > 4:
+                return None
+            ds = reaching_defs(g, nid, e.id)
+            if not ds:
+                return 'const'                       # parameter / module name
+            rs = [judge(d, nid, depth + 1) if isinstance(d, ast.expr) else None for d in ds]
+            if any(isinstance(r, tuple) for r in rs):
+                return [r for r in rs if isinstance(r, tuple)][0]
+            if all(r == 'const' for r in rs):
+                return 'const'
+            if all(r == 'inj' for r in rs):
+                return 'inj'
+            return None
+        if isinstance(e, ast.JoinedStr):
+            parts = [judge(v.value, nid, depth) if isinstance(v, ast.FormattedValue) else 'const'
+                     for v in e.values]
+            for v in e.values:
+                if isinstance(v, ast.FormattedValue) and (v.format_spec is not None or v.conversion not in (-1, 115)):
+                    if judge(v.value, nid, depth) == 'inj':
+                        return ('lossy', 'the name is formatted with a conversion / format spec in %s' % norm(e))
+            return combine(parts)
+        if isinstance(e, ast.BinOp) and isinstance(e.op, (ast.Add, ast.Div)):
+            return combine([judge(e.left, nid, depth), judge(e.right, nid, depth)])
+        if isinstance(e, ast.BinOp) and isinstance(e.op, ast.Mod):
+            r = judge(e.right, nid, depth)
+            if isinstance(e.left, ast.Constant) and isinstance(e.left.value, str):
+                import re as _re
+                if r == 'inj' and _re.search(r'%[-#0 +]*\d*\.\d+s', e.left.value):
+                    return ('lossy', 'the name is truncated by the format %r' % e.left.value)
+                return r if r in ('inj', 'const') or isinstance(r, tuple) else None
+            return None
+        if isinstance(e, ast.Tuple):
+            return combine([judge(x, nid, depth) for x in e.elts])
+        if isinstance(e, ast.Subscript):
+            r = judge(e.value, nid, depth)
+            if r == 'inj' and isinstance(e.slice, ast.Slice):
+                return ('lossy', 'only a slice of the name is used (%s)' % norm(e))
+            return 'const' if r == 'const' else None
+        if isinstance(e, ast.Attribute):
+            r = judge(e.value, nid, depth)
+            return 'const' if r == 'const' else None
+        if isinstance(e, ast.Call):
+            args = list(e.args) + [k.value for k in e.keywords]
+            rs = [judge(a, nid, depth) for a in args]
+            if isinstance(e.func, ast.Attribute):
+                recv = judge(e.func.value, nid, depth)
+                if e.func.attr in LOSSY_METHODS and (recv == 'inj' or 'inj' in rs):
+                    return ('lossy', '%s maps different names to the same string' % norm(e)[:70])
+                if e.func.attr == 'encode' and recv == 'inj':
+                    errs = [k.value for k in e.keywords if k.arg == 'errors'] + list(e.args[1:2])
+                    if errs and isinstance(errs[0], ast.Constant) and errs[0].value in ('replace', 'ignore'):
+                        return ('lossy', 'the name is encoded with errors=%r' % errs[0].value)
+                if e.func.attr in ('joinpath', 'join', 'format'):
+                    return combine([recv] + rs)
+                if recv == 'const' and all(r == 'const' for r in rs):
+                    return 'const'
+                for t in [r for r in [recv] + rs if isinstance(r, tuple)]:
+                    return t
+                return None
+            if isinstance(e.func, ast.Name):
+                if e.func.id in ('str', 'Path', 'PurePath', 'quote', 'quote_plus', 'repr'):
+                    return combine(rs)
+                if all(r == 'const' for r in rs):
+                    return 'const'
+                for t in [r for r in rs if isinstance(r, tuple)]:
+                    return t
+            return None
+        return None
+
+    def combine(parts):
+        for p_ in parts:
+            if isinstance(p_, tuple):
+                return p_
+        if any(p_ is None for p_ in parts):
+            return None
+        n_inj = sum(1 for p_ in parts if p_ == 'inj')
+        return 'inj' if n_inj >= 1 else 'const'
+    for n, c, tgt in opens:
+        r = judge(tgt, n.id)
+        if isinstance(r, tuple):
+            rep.bad(R, 'the report file name is an injective function of the suite name', r[1] +
+                    ': two suites whose names differ only there write to the same file, the later '
+                    'report overwrites the earlier', key='file-name-lossy', func=fi.qualname,
+                    where=ctx.where(fi, c))
+        elif r == 'const':
+            rep.bad(R, 'the report file name depends on the suite name', 'the file that is opened (%s) '
+                    'does not depend on the suite name: every suite writes to the same file' % norm(tgt),
+                    key='file-name-const', func=fi.qualname, where=ctx.where(fi, c))
+        elif r == 'inj':
+            rep.ok(R, 'report file %s: the suite name with constant text around it' % norm(tgt))
+        else:
+            rep.assume('%s: how the report file name %s depends on the suite name is not of a form '
+                       'this rule reads' % (R, norm(tgt)))
